@@ -65,8 +65,8 @@ type c04Conn struct {
 	addr ma.Multiaddr
 }
 
-func (c c04Conn) RemotePeer() peer.ID            { return c.p }
-func (c c04Conn) RemoteMultiaddr() ma.Multiaddr  { return c.addr }
+func (c c04Conn) RemotePeer() peer.ID           { return c.p }
+func (c c04Conn) RemoteMultiaddr() ma.Multiaddr { return c.addr }
 
 type c04Net struct {
 	network.Network
@@ -810,11 +810,6 @@ func c04GenSpec(r *vfRand, i int) c04Spec {
 			s.Local = "corrupt"
 		}
 		s.LocalSq = 1 + (base+r.Intn(5)-2+250)%250
-		// the accelerated client emits its local record without validating it
-		// (a known finding); keep those cases a small minority
-		if s.Client == "fullrt" && s.Local == "stale" && !r.Chance(20) {
-			s.Local = "none"
-		}
 	}
 	if s.Client == "dual" {
 		for j := range s.Resps {
